@@ -147,3 +147,56 @@ def random_mixed(rng, max_strands=60):
             s = random_multi(rng, max_strands)
         if gs.is_wf(s) and gs.nonempty_strands(s) and s.count("+") < max_strands:
             return s
+
+
+def components(s):
+    """strand index lists of the connected components (generator side: union-find on table_of)"""
+    strands = s.split("+")
+    pt = table_of(s)
+    par = list(range(len(strands)))
+
+    def find(x):
+        while par[x] != x:
+            x = par[x]
+        return x
+    for si, r in enumerate(pt):
+        for e in r:
+            if e is not None:
+                par[find(si)] = find(e[0])
+    out = {}
+    for x in range(len(strands)):
+        out.setdefault(find(x), []).append(x)
+    return list(out.values())
+
+
+def component_complex(seq, s, ids, turn=0):
+    """(sequence, structure) of the component with strands `ids`, rotated by `turn`"""
+    stab = [x.split(",") for x in ",".join(seq).split(",+,")]
+    pt = table_of(s)
+    rot = ids[turn:] + ids[:turn]
+    sub = {x: j for j, x in enumerate(rot)}
+    cs, st = [], []
+    for j, x in enumerate(rot):
+        if j:
+            cs.append("+")
+            st.append("+")
+        cs += stab[x]
+        for di, e in enumerate(pt[x]):
+            st.append("." if e is None else ("(" if (j, di) < (sub[e[0]], e[1]) else ")"))
+    return cs, st
+
+
+def split_history(rng, s, names=("a", "b")):
+    """a history for ComplexS.split(): some components exist beforehand (any rotation,
+    explicit / automatic / clashing names), unrelated complexes, the complex itself
+    named / unnamed / with a name of the automatic form"""
+    seq = gs.seq_for(rng, s, names=names)
+    pre = []
+    for ids in components(s):
+        if rng.random() < 0.5:
+            cs, st = component_complex(seq, s, ids, rng.randrange(len(ids)))
+            pre.append([cs, st, rng.choice([None, None, "x%d" % len(pre), "c1", "c2", "c3"])])
+    if rng.random() < 0.3:
+        pre.append([[rng.choice(names)], ["."], rng.choice([None, "c2", "c3", "q"])])
+    rng.shuffle(pre)
+    return [pre, [seq, list(s), rng.choice([None, None, "me", "c1", "c2"])]]
